@@ -1,20 +1,40 @@
-"""C06 — every training step of the real `fit` against the CD-update model (QV.Model.CDStep)."""
+"""C06 — every training step of the real `fit` against the CD-update model (QV.Model.CDStep).
+
+A case is a real `fit()` run (optionally two consecutive runs on the same object). Observed per batch:
+  * the arguments of `compute_batch_gradients` (k, positive rows, bases, NEGATIVE batch) and the parameters before it,
+  * every `torch.bernoulli` call made inside it (C05's scripted-draw recorder: probabilities presented + draws made),
+  * the `initial_state` / `k` / result of `rbm_am.gibbs_steps` (instance wrapper, when the implementation goes through it),
+  * `.grad` per parameter, the learning rate in the optimizer and the parameters after `optimizer.step()`.
+The model (`c06.cdstep`) is fed (parameters before, positive batch, NEGATIVE batch, k, recorded draws) and COMPUTES the chain
+end states, the probabilities presented, the gradients and the parameters after the step; `c06.run` recomputes the whole fit
+call from the parameters the call started with (history clause) with the scheduler's learning rate per epoch.
+Independent oracles on the implementation: numpy replay of the chain from the negative batch, finite differences of an
+independently written CD objective, bit-exact continuity of the parameters across batches / epochs / fit calls, StepLR law."""
 import numpy as np
 
 from . import qc
-from .c03 import EPS, ORDER_PRBM, ORDER_RBM, dict_np, flat
+from .c03 import EPS, ORDER_PRBM, ORDER_RBM, E_prbm, E_rbm, dense_K, dict_np, fd_grad, flat, idx, rho_np
+from .c05 import Recorder
 from .common import bits, f2b, unbits
 from .qc import torch
 
 FILES = ["qucumber/nn_states/neural_state.py", "qucumber/utils/gradients_utils.py", "qucumber/nn_states/positive_wavefunction.py",
          "qucumber/nn_states/complex_wavefunction.py", "qucumber/nn_states/density_matrix.py"]
-REQUIRED_THEOREMS = ['C06_batch_grad', 'C06_batch_grad_prbm', 'C06_phase_gets_positive_phase_only', 'C06_slices', 'C06_lands_on_parameter', 'C06_lands_on_parameter_prbm', 'C06_sgd_step', 'C06_run_unfold']
+REQUIRED_THEOREMS = ['C06_batch_grad', 'C06_batch_grad_prbm', 'C06_phase_gets_positive_phase_only', 'C06_slices', 'C06_lands_on_parameter',
+                     'C06_lands_on_parameter_prbm', 'C06_sgd_step', 'C06_run_unfold',
+                     'C06_chain', 'C06_chain_prbm', 'C06_chain_zero', 'C06_chain_run', 'C06_chain_step', 'C06_chain_law', 'C06_sgd_step_dm',
+                     'C06_chain_stationary', 'C06_history', 'C06_run_unfold_cplx', 'C06_run_unfold_dm', 'C06_scheduler_lr', 'C06_steplr', 'C06_fit_trace_length']
 RULE = ("case = a real fit() run (state kind, n, h[, a], data with repeats and per-row bases, pos/neg batch sizes equal or different, dividing N or not, "
-        "k in 0..3, learning rate, 1-3 epochs) observed through a recording optimizer passed via optimizer=, compute_batch_gradients and "
-        "rbm_am.gibbs_steps wrapped on the instance, a counting scheduler; every batch of every epoch is one observation: .grad per parameter, "
-        "parameters before/after, chain end states; non-trivial iff the run has >= 2 batches and k >= 1; distinct by hash of the configuration")
-TH = {"grad": "C06_batch_grad, C06_phase_gets_positive_phase_only, C06_lands_on_parameter", "after": "C06_sgd_step, C06_run_unfold",
-      "sched": "C12_scheduler_once_per_epoch (event-protocol model)"}
+        "k in 0..3, learning rate, 1-3 epochs, optionally a second fit on the same object with other lr/data; optimizer given as a recording SGD "
+        "subclass / omitted (library default, torch.optim.SGD.step patched to record) / with optimizer_args; scheduler = counting stub or a real "
+        "torch StepLR(step_size 1..2, gamma) via scheduler_args; bernoulli draws scripted (faithful u<p or fair coins) and recorded) observed through "
+        "compute_batch_gradients and rbm_am.gibbs_steps wrapped on the instance; every batch of every epoch is one observation: negative batch, "
+        "chain start, probabilities presented, chain end states, .grad per parameter, lr, parameters before/after; non-trivial iff the run has >= 2 "
+        "batches and k >= 1; distinct by hash of the configuration")
+TH = {"grad": "C06_batch_grad, C06_phase_gets_positive_phase_only, C06_lands_on_parameter", "after": "C06_sgd_step, C06_sgd_step_dm, C06_run_unfold",
+      "sched": "C12_scheduler_once_per_epoch (event-protocol model)",
+      "chain": "C06_chain, C06_chain_prbm, C06_chain_run, C06_chain_law (with C05_batch_law, C05_k_step_law)", "chain0": "C06_chain_zero",
+      "hist": "C06_history, C06_run_unfold, C06_run_unfold_cplx, C06_run_unfold_dm, C06_fit_trace_length", "lr": "C06_scheduler_lr, C06_steplr"}
 
 
 def make_state(case):
@@ -33,6 +53,87 @@ def net_params(net, kind):
     return {"W": net.weights.data.numpy().copy(), "b": net.visible_bias.data.numpy().copy(), "c": net.hidden_bias.data.numpy().copy()}
 
 
+def same_params(p, q):
+    """bit-exact equality of two lists of parameter dicts"""
+    return len(p) == len(q) and all(x.keys() == y.keys() and all(np.array_equal(x[k], y[k]) for k in x) for x, y in zip(p, q))
+
+
+# ------------------------------------------------------------------ independent numpy restatements
+def _sig(x):
+    with np.errstate(all="ignore"):
+        return 1.0 / (1.0 + np.exp(-np.asarray(x, dtype=np.float64)))
+
+
+def np_chain(kind, am, neg, calls, k, n, h, a):
+    """block-Gibbs chain re-played in numpy FROM THE NEGATIVE BATCH with the recorded draws: in every pass the probabilities presented
+    to the sampler must be sigma(W v + c) [, sigma(U v + d)] of the current visible rows (pass 0: the rows of `neg`) and then
+    sigma(W^T h [+ U^T a] + b) of this pass's hidden [and auxiliary] draws. returns (pattern_ok, probs_ok, end states | None, detail)"""
+    W, b, c = (np.asarray(am[x], dtype=np.float64) for x in ("W", "b", "c"))
+    W = W.reshape(len(c), len(b))
+    dm = kind == "dm"
+    if dm:
+        d = np.asarray(am["d"], dtype=np.float64)
+        U = np.asarray(am["U"], dtype=np.float64).reshape(len(d), len(b))
+    sizes = [h, a, n] if dm else [h, n]
+    M = neg.shape[0]
+    want_shapes = [[M, m] for _ in range(k) for m in sizes]
+    got_shapes = [list(cl["shape"]) for cl in calls]
+    if got_shapes != want_shapes:
+        return False, False, None, {"bernoulli_shapes": got_shapes[:8], "expected": want_shapes[:8]}
+    v = np.asarray(neg, dtype=np.float64).reshape(M, n)
+    per = len(sizes)
+    for s in range(k):
+        cs = calls[per * s: per * s + per]
+        ph = _sig(v @ W.T + c)
+        if not np.allclose(cs[0]["p"], ph.ravel(), rtol=1e-9, atol=1e-12):
+            return True, False, None, {"pass": s, "which": "p(h|v)", "presented": cs[0]["p"][:8].tolist(), "from_current_rows": ph.ravel()[:8].tolist()}
+        hd = cs[0]["draw"].reshape(M, h).astype(np.float64)
+        if dm:
+            pa = _sig(v @ U.T + d)
+            if not np.allclose(cs[1]["p"], pa.ravel(), rtol=1e-9, atol=1e-12):
+                return True, False, None, {"pass": s, "which": "p(a|v)", "presented": cs[1]["p"][:8].tolist(), "from_current_rows": pa.ravel()[:8].tolist()}
+            ad = cs[1]["draw"].reshape(M, a).astype(np.float64)
+            pv = _sig(hd @ W + ad @ U + b)
+        else:
+            pv = _sig(hd @ W + b)
+        if not np.allclose(cs[-1]["p"], pv.ravel(), rtol=1e-9, atol=1e-12):
+            return True, False, None, {"pass": s, "which": "p(v|h)", "presented": cs[-1]["p"][:8].tolist(), "from_this_pass_draws": pv.ravel()[:8].tolist()}
+        v = cs[-1]["draw"].reshape(M, n).astype(np.float64)
+    return True, True, v, None
+
+
+def cd_objective(kind, am, ph, pos, bases, vk, space, D):
+    """F(theta) = mean_i -log ptilde(sigma_i in basis b_i) - mean_m E_lambda(vk_m), vk held fixed: its gradient with respect to the amplitude
+    parameters is the CD gradient, with respect to the phase parameters the positive phase (independent of the library and of the Lean model)"""
+    pos = np.asarray(pos, dtype=float)
+    vk = np.asarray(vk, dtype=float)
+    if kind == "pos":
+        return E_rbm(am, pos).mean() - E_rbm(am, vk).mean()
+    tot, cache = 0.0, {}
+    if kind == "cplx":
+        psi = np.exp(-(E_rbm(am, space) + 1j * E_rbm(ph, space)) / 2)
+        for s, b in zip(pos, bases):
+            if b not in cache:
+                cache[b] = np.abs(dense_K(b, D) @ psi) ** 2
+            tot -= np.log(cache[b][idx(s)])
+        return tot / len(pos) - E_rbm(am, vk).mean()
+    rho = rho_np(am, ph, space)
+    for s, b in zip(pos, bases):
+        if b not in cache:
+            K = dense_K(b, D)
+            cache[b] = np.real(np.diag(K @ rho @ K.conj().T))
+        tot -= np.log(cache[b][idx(s)] + (EPS if any(ch != "Z" for ch in b) else 0.0))
+    return tot / len(pos) - E_prbm(am, vk).mean()
+
+
+def expected_lr(lr0, sched, e):
+    """learning rate in epoch e (0-based within one fit call): StepLR closed form; without a (real) scheduler the rate given to fit"""
+    if not sched:
+        return lr0
+    return lr0 * sched["gamma"] ** (e // sched["step_size"])
+
+
+# ------------------------------------------------------------------ one case
 def one_case(ctx, case):
     ctx.current_case = case
     kind, n, h, a = case["kind"], case["n"], case["h"], case.get("a", 0)
@@ -42,7 +143,12 @@ def one_case(ctx, case):
     order = ORDER_PRBM if kind == "dm" else ORDER_RBM
     data = np.asarray(case["data"], dtype=float)
     bases = np.array([list(b) for b in case["bases"]]) if kind != "pos" else None
-    log = {"batches": [], "sched": [], "events": []}
+    sched = case.get("sched")
+    opt_form = case.get("opt_form", "class")
+    dmode = case.get("dmode", "faithful")
+    dseed = case.get("dseed", case["seed"] % (1 << 30))
+    log = {"batches": [], "sched": [], "events": [], "unobserved": 0}
+    state = {"epoch": None, "run": 0}
 
     # --- instance-level wrappers (public methods)
     orig_cbg = st.compute_batch_gradients
@@ -53,33 +159,55 @@ def one_case(ctx, case):
         cur.clear()
         cur.update(k=k, pos=samples_batch.numpy().copy(), neg=neg_batch.numpy().copy(),
                    bases=None if bases_batch is None else ["".join(r) for r in np.asarray(bases_batch)],
-                   before=[net_params(x, kind) for x in nets])
-        if kind == "pos":
-            return orig_cbg(k, samples_batch, neg_batch)
-        return orig_cbg(k, samples_batch, neg_batch, bases_batch)
+                   before=[net_params(x, kind) for x in nets], epoch=state["epoch"], run=state["run"])
+        with Recorder(dseed + 7919 * len(log["batches"]), dmode) as rec:
+            if kind == "pos":
+                out = orig_cbg(k, samples_batch, neg_batch)
+            else:
+                out = orig_cbg(k, samples_batch, neg_batch, bases_batch)
+        cur["calls"] = rec.calls
+        cur["neg_after"] = neg_batch.numpy().copy()
+        gc = cur.pop("gibbs_calls", [])
+        if len(gc) == 1 and gc[0][1].shape == cur["neg"].shape and gc[0][2].shape == cur["neg"].shape:
+            # the chain is ONE gibbs_steps call on a whole batch: observable through the wrapper
+            cur["gibbs_k"], cur["gibbs_init"], cur["vk"] = gc[0]
+        elif gc and len(gc) == cur["neg"].shape[0] and len({g_[0] for g_ in gc}) == 1 and all(g_[1].shape == cur["neg"].shape[1:] == g_[2].shape for g_ in gc):
+            # one gibbs_steps call per chain (row): still observable, by stacking the per-row calls
+            cur["gibbs_k"], cur["gibbs_init"], cur["vk"] = gc[0][0], np.stack([g_[1] for g_ in gc]), np.stack([g_[2] for g_ in gc])
+        return out
 
     def gibbs(k, initial_state, overwrite=False):
+        inside = "k" in cur and "neg_after" not in cur
+        if inside:
+            init = initial_state.detach().to(torch.double).numpy().copy()
         out = orig_gibbs(k, initial_state, overwrite=overwrite)
-        if "k" in cur and "vk" not in cur:
-            cur["vk"] = out.numpy().copy()
-            cur["gibbs_k"] = k
+        if inside:
+            cur.setdefault("gibbs_calls", []).append((k, init, out.detach().to(torch.double).numpy().copy()))
         return out
 
     st.compute_batch_gradients = cbg
     st.rbm_am.gibbs_steps = gibbs
 
+    def record_step(opt, do_step):
+        grads = [[None if p.grad is None else p.grad.numpy().copy() for p in g["params"]] for g in opt.param_groups]
+        r = do_step()
+        if "k" not in cur:  # optimizer stepped without a compute_batch_gradients call since the last step: nothing to tie the model to
+            log["unobserved"] += 1
+            return r
+        rec = dict(cur)
+        rec["grads"] = grads[0]
+        rec["after"] = [net_params(x, kind) for x in nets]
+        rec["lr"] = opt.param_groups[0]["lr"]
+        rec["momentum"] = opt.param_groups[0].get("momentum")
+        rec["opt_class"] = type(opt).__name__
+        log["batches"].append(rec)
+        log["events"].append("opt")
+        cur.clear()
+        return r
+
     class RecSGD(torch.optim.SGD):
         def step(self, closure=None):
-            grads = [[None if p.grad is None else p.grad.numpy().copy() for p in g["params"]] for g in self.param_groups]
-            r = super().step(closure)
-            rec = dict(cur)
-            rec["grads"] = grads[0]
-            rec["after"] = [net_params(x, kind) for x in nets]
-            rec["lr"] = self.param_groups[0]["lr"]
-            log["batches"].append(rec)
-            log["events"].append("opt")
-            cur.clear()
-            return r
+            return record_step(self, lambda: torch.optim.SGD.step(self, closure))
 
     class CountSched:
         def __init__(self, optimizer, **kw):
@@ -89,35 +217,82 @@ def one_case(ctx, case):
             log["sched"].append(len(log["batches"]))
             log["events"].append("sched")
 
+    class RecStepLR(torch.optim.lr_scheduler.StepLR):
+        """a REAL torch scheduler; only logs when it is stepped (the constructor's own initial step is not an epoch step)"""
+
+        def __init__(self, optimizer, **kw):
+            self._g3_ready = False
+            super().__init__(optimizer, **kw)
+            self._g3_ready = True
+
+        def step(self, *a_, **k_):
+            if self._g3_ready:
+                log["sched"].append(len(log["batches"]))
+                log["events"].append("sched")
+            return super().step(*a_, **k_)
+
     from qucumber.callbacks import LambdaCallback
-    cb = LambdaCallback(on_epoch_start=lambda s, e: log["events"].append(f"es{e}"), on_epoch_end=lambda s, e: log["events"].append(f"ee{e}"))
+
+    def on_es(s, e):
+        state["epoch"] = e
+        log["events"].append(f"es{e}")
+
+    cb = LambdaCallback(on_epoch_start=on_es, on_epoch_end=lambda s, e: log["events"].append(f"ee{e}"))
     start = case.get("start", 1)
     last = start + case["epochs"] - 1
     kw = dict(epochs=last, starting_epoch=start, pos_batch_size=case["pos_bs"], neg_batch_size=case["neg_bs"], k=case["k"], lr=case["lr"],
-              optimizer=RecSGD, scheduler=CountSched, callbacks=[cb])
+              callbacks=[cb])
+    if sched:
+        kw.update(scheduler=RecStepLR, scheduler_args={"step_size": sched["step_size"], "gamma": sched["gamma"]})
+    else:
+        kw.update(scheduler=CountSched)
+    if opt_form == "class":
+        kw.update(optimizer=RecSGD)
+    elif opt_form == "args":
+        kw.update(optimizer=RecSGD, optimizer_args={"momentum": 0.0, "dampening": 0.0, "nesterov": False})  # still plain SGD
     runs = [(case["lr"], data)]
     if case.get("second_lr") is not None:  # a second fit on the SAME object: other learning rate, other (same-shaped) data
         runs.append((case["second_lr"], np.asarray(case["second_data"], dtype=float)))
     run_bounds = []
-    for lr_run, data_run in runs:
-        kw["lr"] = lr_run
-        n_before = len(log["batches"])
-        if kind == "pos":
-            st.fit(torch.tensor(data_run, dtype=torch.double), **kw)
-        else:
-            st.fit(torch.tensor(data_run, dtype=torch.double), input_bases=bases, **kw)
-        run_bounds.append((n_before, len(log["batches"]), lr_run, data_run))
+    initial = [net_params(x, kind) for x in nets]
+    sgd_step_orig = torch.optim.SGD.step
+    try:
+        if opt_form == "default":  # `optimizer=` omitted: the library's default optimizer; its step is patched (class level) to record
+            def patched(self, closure=None):
+                return record_step(self, lambda: sgd_step_orig(self, closure))
+            torch.optim.SGD.step = patched
+        for r_i, (lr_run, data_run) in enumerate(runs):
+            kw["lr"] = lr_run
+            state["run"] = r_i
+            n_before = len(log["batches"])
+            p_start = [net_params(x, kind) for x in nets]
+            if kind == "pos":
+                st.fit(torch.tensor(data_run, dtype=torch.double), **kw)
+            else:
+                st.fit(torch.tensor(data_run, dtype=torch.double), input_bases=bases, **kw)
+            run_bounds.append((n_before, len(log["batches"]), lr_run, data_run, p_start, [net_params(x, kind) for x in nets]))
+    finally:
+        torch.optim.SGD.step = sgd_step_orig
 
+    if log["unobserved"]:
+        # fit no longer goes through the public compute_batch_gradients once per optimizer step: the per-batch model cannot be tied to the code
+        ctx.case({"unobserved": True, "seed": case["seed"]}, nontrivial=False)
+        ctx.point("every optimizer step is preceded by one compute_batch_gradients call (observation hook of the per-batch model)", "aux",
+                  log["unobserved"], 0, case, exact=True, sig=f"{kind}/batch-gradients-not-observable", theorem=TH["grad"])
+        return
     N = len(data)
     nb = -(-N // case["pos_bs"])
     neg_bs = case["neg_bs"] if case["neg_bs"] else case["pos_bs"]
     nontriv = nb >= 2 and case["k"] >= 1
     ctx.count("regime=" + case.get("regime", "ordinary")); ctx.count(f"starting_epoch={start}"); ctx.count("second_fit" if len(run_bounds) > 1 else "single_fit")
-    ctx.case({k: case.get(k) for k in ("kind", "n", "h", "k", "lr", "epochs", "pos_bs", "neg_bs", "seed", "data", "bases", "start", "second_lr")}, nontrivial=nontriv,
+    ctx.case({k: case.get(k) for k in ("kind", "n", "h", "k", "lr", "epochs", "pos_bs", "neg_bs", "seed", "data", "bases", "start", "second_lr", "sched",
+                                       "opt_form", "dmode")}, nontrivial=nontriv,
              sample={"kind": kind, "n": n, "h": h, "N": N, "pos_bs": case["pos_bs"], "neg_bs": case["neg_bs"], "k": case["k"], "lr": case["lr"],
-                     "epochs": case["epochs"], "batches_seen": len(log["batches"])})
+                     "epochs": case["epochs"], "batches_seen": len(log["batches"]), "sched": sched, "opt_form": opt_form})
     ctx.count(f"kind={kind}"); ctx.count(f"k={case['k']}"); ctx.count("neg==pos" if neg_bs == case["pos_bs"] else "neg!=pos")
     ctx.count("N%pos==0" if N % case["pos_bs"] == 0 else "N%pos!=0")
+    ctx.count("scheduler=" + (f"StepLR(step_size={sched['step_size']})" if sched else "counting stub")); ctx.count(f"optimizer form={opt_form}")
+    ctx.count(f"draws={dmode}")
 
     # --- schedule-level oracles (per fit call)
     nruns = len(run_bounds)
@@ -139,29 +314,85 @@ def one_case(ctx, case):
             pos = i_e + 1
     ctx.oracle("scheduler stepped once per epoch, after the last batch, before epoch end, never outside an epoch", bool(ok_sched), case,
                detail={"sched": log["sched"], "events": ev[:40]}, sig=f"{kind}/scheduler", theorem=TH["sched"])
-    for (a0, a1, lr_run, data_run) in run_bounds:
-        rows_ok = all(any(np.array_equal(row, d) for d in data_run) for rec in log["batches"][a0:a1] for row in rec["pos"])
-        neg_ok = all(any(np.array_equal(row, d) for d in data_run) for rec in log["batches"][a0:a1] for row in rec["neg"])
-        ctx.oracle("every batch of a fit call uses the learning rate and the data of THAT call", rows_ok and neg_ok and
-                   all(abs(rec["lr"] - lr_run) <= 1e-15 for rec in log["batches"][a0:a1]), case,
-                   detail={"lrs": sorted({rec["lr"] for rec in log["batches"][a0:a1]}), "expected_lr": lr_run, "rows_ok": rows_ok, "neg_ok": neg_ok},
-                   sig=f"{kind}/per-call-config", theorem=TH["after"])
+    if opt_form == "default":  # informational: which optimizer the library built (the verdict is the effect: after == before - lr*grad)
+        for cls_ in sorted({f"{rec['opt_class']}(momentum={rec['momentum']})" for rec in log["batches"]}):
+            ctx.count(f"default optimizer built by fit: {cls_}")
+    for (a0, a1, lr_run, data_run, p_start, p_end) in run_bounds:
+        recs = log["batches"][a0:a1]
+        rows_ok = all(any(np.array_equal(row, d) for d in data_run) for rec in recs for row in rec["pos"])
+        neg_ok = all(any(np.array_equal(row, d) for d in data_run) for rec in recs for row in rec["neg"])
+        want_lrs = [expected_lr(lr_run, sched, (rec["epoch"] - start) if rec["epoch"] is not None else 0) for rec in recs]
+        lr_ok = all(abs(rec["lr"] - w) <= 1e-15 + 1e-12 * abs(w) for rec, w in zip(recs, want_lrs))
+        ctx.oracle("every batch of a fit call uses the data of THAT call and the learning rate lr*gamma^floor(e/step_size) of its epoch e "
+                   "(lr itself without a real scheduler)", rows_ok and neg_ok and lr_ok, case,
+                   detail={"lrs": [rec["lr"] for rec in recs][:12], "expected_lrs": want_lrs[:12], "rows_ok": rows_ok, "neg_ok": neg_ok},
+                   sig=f"{kind}/per-call-config", theorem=TH["after"] + "; " + TH["lr"])
+        # history clause, bit-exact: the parameters a batch is evaluated at are EXACTLY those the previous optimizer step left
+        cont = None
+        if recs:
+            if not same_params(recs[0]["before"], p_start):
+                cont = {"where": "first batch of the call", "batch": a0}
+            for t in range(len(recs) - 1):
+                if cont is None and not same_params(recs[t + 1]["before"], recs[t]["after"]):
+                    cont = {"where": "between consecutive batches", "batch": a0 + t + 1, "epoch_prev": recs[t]["epoch"], "epoch": recs[t + 1]["epoch"]}
+            if cont is None and not same_params(p_end, recs[-1]["after"]):
+                cont = {"where": "after the last optimizer step of the call"}
+        ctx.oracle("parameters before batch t+1 == parameters after batch t (bit-exact), first batch starts from the parameters the call was entered "
+                   "with, nothing changes them after the last step", cont is None, case, detail=cont, sig=f"{kind}/continuity", theorem=TH["hist"])
+    ctx.oracle("first fit call starts from the parameters the case set", bool(run_bounds) and same_params(run_bounds[0][4], initial), case,
+               sig=f"{kind}/continuity-initial", theorem=TH["hist"])
+    if len(run_bounds) > 1:
+        ctx.oracle("second fit call starts from the parameters the first one ended with (bit-exact)", same_params(run_bounds[1][4], run_bounds[0][5]), case,
+                   sig=f"{kind}/continuity-across-fits", theorem=TH["hist"])
 
     D = dict_np()
     dict_enc = {L: [[[f2b(D[L][r][c].real), f2b(D[L][r][c].imag)] for c in range(2)] for r in range(2)] for L in "XYZ"}
+    space = np.asarray(qc.all_states(n), dtype=float)
+    nbatches = len(log["batches"])
+    unmodelled = []
+    fd_pick = set(range(nbatches)) if ctx.tier == "thorough" and nbatches <= 12 else {0, 1, nbatches // 2, nbatches - 1}
     for bi, rec in enumerate(log["batches"]):
         bcase = {**case, "batch_index": bi}
+        k = case["k"]
+        lr_want = expected_lr(run_bounds[rec["run"]][2], sched, (rec["epoch"] - start) if rec["epoch"] is not None else 0)
+        # ---------------- the chain: started from the negative batch
         ok_shape = rec["neg"].shape[0] == neg_bs or (rec["neg"].shape[0] == rec["pos"].shape[0])
-        ctx.oracle("k passed to gibbs_steps and chain start = negative batch", rec.get("gibbs_k") == case["k"] and ok_shape and
-                   rec["vk"].shape == rec["neg"].shape, bcase, sig=f"{kind}/gibbs-args", theorem=TH["grad"])
-        # independent oracle for the parameter move: after = before - lr * grad (per parameter, as seen by the optimizer)
+        ctx.oracle("negative batch has neg_batch_size rows (or mirrors the positive batch)", bool(ok_shape), bcase, sig=f"{kind}/neg-shape", theorem=TH["grad"])
+        ctx.oracle("compute_batch_gradients leaves the negative batch it was given unchanged", bool(np.array_equal(rec["neg"], rec["neg_after"])), bcase,
+                   sig=f"{kind}/neg-untouched", theorem="C05_overwrite")
+        pat_ok, probs_ok, vk_np, cdetail = np_chain(kind, rec["before"][0], rec["neg"], rec["calls"], k, n, h, a)
+        if pat_ok:
+            ctx.oracle("the chain starts FROM THE NEGATIVE BATCH: pass 1 presents p(h|v) [, p(a|v)] of the rows of neg_batch at the parameters before the "
+                       "step, every later conditional follows the draws (k passes; numpy replay of the recorded bernoulli calls)", probs_ok, bcase,
+                       detail=cdetail, sig=f"{kind}/chain-from-neg", theorem=TH["chain"])
+        else:
+            unmodelled.append((bi, cdetail))
+        vk = rec.get("vk")
+        if "gibbs_k" in rec:
+            ctx.oracle("k passed to gibbs_steps and chain start = negative batch (values)", rec["gibbs_k"] == k and rec["gibbs_init"].shape == rec["neg"].shape
+                       and bool(np.array_equal(rec["gibbs_init"], rec["neg"])) and vk.shape == rec["neg"].shape, bcase,
+                       detail={"k_passed": rec["gibbs_k"], "initial_state": rec["gibbs_init"][:6].tolist(), "neg_batch": rec["neg"][:6].tolist()},
+                       sig=f"{kind}/gibbs-args", theorem=TH["chain"])
+            if k == 0:
+                ctx.oracle("k = 0: chain end states == negative batch, no draw made", bool(np.array_equal(vk, rec["neg"])) and not rec["calls"], bcase,
+                           detail={"vk": vk[:6].tolist(), "neg": rec["neg"][:6].tolist(), "bernoulli_calls": len(rec["calls"])}, sig=f"{kind}/k0",
+                           theorem=TH["chain0"])
+            if vk_np is not None and k >= 1:
+                ctx.oracle("chain end states handed to the gradient == last visible draw of the chain from the negative batch", bool(np.array_equal(vk, vk_np)),
+                           bcase, sig=f"{kind}/vk-is-last-draw", theorem=TH["chain"])
+        else:
+            ctx.count("rbm_am.gibbs_steps not called exactly once by compute_batch_gradients (chain taken from the bernoulli recording)")
+            vk = vk_np if k >= 1 else rec["neg"].copy()
+        if vk is None:
+            continue  # neither hook sees the chain: reported once below as a broken correspondence
+        # ---------------- independent oracle for the parameter move: after = before - lr * grad (per parameter, as seen by the optimizer)
         g_all = rec["grads"]
         before = np.concatenate([flat(p, order) for p in rec["before"]])
         after = np.concatenate([flat(p, order) for p in rec["after"]])
         gflat = np.concatenate([g.ravel() for g in g_all])
-        ctx.oracle("after == before - lr*grad", bool(np.allclose(after, before - rec["lr"] * gflat, rtol=1e-12, atol=1e-14)), bcase,
-                   sig=f"{kind}/sgd", theorem=TH["after"])
-        # independent oracle for the gradient: public positive_phase_gradients at the parameters before, minus mean energy gradient at vk
+        ctx.oracle("after == before - lr_e*grad (lr_e = lr*gamma^floor(e/step_size) under StepLR)", bool(np.allclose(after, before - lr_want * gflat, rtol=1e-12, atol=1e-14)),
+                   bcase, detail={"lr_in_optimizer": rec["lr"], "lr_expected": lr_want}, sig=f"{kind}/sgd", theorem=TH["after"] + "; " + TH["lr"])
+        # consistency with the library's own public pieces at the parameters before (NOT independent: localises only)
         ref = make_state({**case, "am": {k2: v.tolist() for k2, v in rec["before"][0].items()},
                           "ph": ({k2: v.tolist() for k2, v in rec["before"][1].items()} if kind != "pos" else None)})
         pos_t = torch.tensor(rec["pos"], dtype=torch.double)
@@ -169,15 +400,33 @@ def one_case(ctx, case):
             pp = ref.positive_phase_gradients(pos_t)
         else:
             pp = ref.positive_phase_gradients(pos_t, np.array([list(b) for b in rec["bases"]]))
-        want = [pp[0].numpy() - ref.rbm_am.effective_energy_gradient(torch.tensor(rec["vk"], dtype=torch.double)).numpy() / rec["neg"].shape[0]]
+        want = [pp[0].numpy() - ref.rbm_am.effective_energy_gradient(torch.tensor(vk, dtype=torch.double)).numpy() / rec["neg"].shape[0]]
         if kind != "pos":
             want.append(pp[1].numpy())
         ok = bool(np.allclose(gflat, np.concatenate(want), rtol=1e-9, atol=1e-11))
-        ctx.oracle("grad == positive phase - mean energy gradient at chain ends (per parameter, parameters() order)", ok, bcase,
+        ctx.oracle("grad == public positive_phase_gradients - mean public effective_energy_gradient at the chain ends (per parameter, parameters() order)", ok, bcase,
                    detail={"maxdiff": float(np.max(np.abs(gflat - np.concatenate(want))))}, sig=f"{kind}/cd-oracle", theorem=TH["grad"])
+        # INDEPENDENT oracle (numpy only): central finite differences of F = mean -log ptilde(batch) - mean E_lambda(vk)
+        if case.get("regime", "ordinary") not in ("small-amplitude", "many-bases") and n <= 3 and bi in fd_pick:
+            am_b = {k2: v for k2, v in rec["before"][0].items()}
+            ph_b = {k2: v for k2, v in rec["before"][1].items()} if kind != "pos" else None
+            fds = [fd_grad(lambda p: cd_objective(kind, p, ph_b, rec["pos"], rec["bases"], vk, space, D), am_b, order)]
+            if kind != "pos":
+                fds.append(fd_grad(lambda p: cd_objective(kind, am_b, p, rec["pos"], rec["bases"], vk, space, D), ph_b, order))
+            fdv = np.concatenate(fds)
+            tol = 2e-5 * max(1.0, float(np.max(np.abs(fdv))))
+            if kind == "dm":
+                tol = max(tol, 1e-6 * len(fdv))
+            okfd = fdv.shape == gflat.shape and bool(np.all(np.abs(gflat - fdv) <= tol))
+            ctx.oracle("grad == d/dtheta [ mean -log ptilde(positive batch) - mean E_lambda(chain ends) ] by central finite differences of an independent "
+                       "numpy objective (amplitude AND phase network)", okfd, bcase,
+                       detail={"maxdiff": float(np.max(np.abs(gflat - fdv))) if fdv.shape == gflat.shape else None, "tol": tol}, sig=f"{kind}/cd-fd",
+                       theorem=TH["grad"])
+            ctx.count("finite-difference CD oracles")
         if ctx.driver is None:
             continue
-        req = dict(kind=kind, n=n, h=h, lr=f2b(rec["lr"]), vk=bits(rec["vk"]))
+        # ---------------- model: one step computed FROM THE NEGATIVE BATCH and the recorded draws
+        req = dict(kind=kind, n=n, h=h, lr=f2b(lr_want))
         if kind == "pos":
             req.update(am=qc.pbits(rec["before"][0]), rows=bits(rec["pos"]))
         else:
@@ -185,49 +434,143 @@ def one_case(ctx, case):
             req.update(am=qc.pbits(rec["before"][0]), ph=qc.pbits(rec["before"][1]), dict=dict_enc, samples=samples)
             if kind == "dm":
                 req.update(a=a, eps=f2b(EPS))
-        m = ctx.driver.call("c06.step", **req)
+        m = None
+        if pat_ok:
+            draws = [int(x) for cl in rec["calls"] for x in cl["draw"]]
+            probs = np.concatenate([cl["p"] for cl in rec["calls"]]) if rec["calls"] else np.zeros(0)
+            m = ctx.driver.call("c06.cdstep", **req, neg=[[int(x) for x in r] for r in rec["neg"]], k=k, draws=draws)
+            if m.get("short"):
+                ctx.point("model chain consumes the recording", "property", len(draws), "model needs more draws", bcase, exact=True, sig=f"{kind}/chain-draw-count",
+                          theorem=TH["chain"])
+                m = None
+            else:
+                ctx.point("number of draws of the chain", "property", len(draws), len(draws) - m["leftover"], bcase, exact=True, sig=f"{kind}/chain-draw-count",
+                          theorem=TH["chain"])
+                if m["leftover"] == 0:
+                    ctx.point("probabilities presented by the chain from the negative batch", "property", probs, unbits(m["probs"]) if m["probs"] else np.zeros(0),
+                              bcase, sig=f"{kind}/chain-probs", theorem=TH["chain"])
+                ctx.point("chain end states (model: gibbsStepsB k neg on the recorded draws)", "property", vk.astype(int).tolist(), m["vk"], bcase, exact=True,
+                          sig=f"{kind}/chain-end", theorem=TH["chain"] if k else TH["chain0"])
+        if m is None:  # recording not interpretable as one batched chain: the model is fed the implementation's chain end states
+            m = ctx.driver.call("c06.step", **req, vk=bits(vk))
+            ctx.count("model fed the recorded chain end states (c06.step)")
         pi = 0
         for ni in range(len(nets)):
             for si, sl in enumerate(m["grads"][ni]):
                 impl_g = g_all[pi].ravel()
                 scale = max(1.0, float(np.max(np.abs(impl_g))) if impl_g.size else 1.0)
                 ctx.point(f"grad[net{ni}][param{si}]", "property", impl_g, unbits(sl), bcase, scale=scale, rtol=5e-8, atol=1e-10,
-                          sig=f"{kind}/grad", theorem=TH["grad"])
+                          sig=f"{kind}/grad", theorem=TH["grad"] + "; " + TH["chain"])
                 pi += 1
             ctx.point(f"params_after[net{ni}]", "property", flat(rec["after"][ni], order), unbits(m["after"][ni]), bcase, scale=1.0,
                       rtol=5e-8, atol=1e-10, sig=f"{kind}/after", theorem=TH["after"])
+
+    if unmodelled and not ctx.__dict__.get("_c06_unmodelled_reported"):
+        ctx._c06_unmodelled_reported = True
+        # the sampler is modelled (C05) as ONE bernoulli call per conditional on the whole negative batch, k passes: when the code draws differently
+        # the chain of the model cannot be tied to it -> ONE auxiliary mismatch (broken correspondence); the verdict on the property comes from the
+        # effect oracles (gibbs_steps arguments, finite differences, sgd, continuity)
+        ctx.point("bernoulli draws consumed as the model scripts them (k passes of h[,a],v conditionals on the whole negative batch)", "aux",
+                  unmodelled[0][1], None, {**case, "batch_index": unmodelled[0][0]}, exact=True, sig=f"{kind}/chain-draws-not-consumed-as-modelled",
+                  theorem=TH["chain"])
+    # ---------------- model: every fit call recomputed from the parameters it started with (history clause + learning-rate schedule)
+    if ctx.driver is None:
+        return
+    for r_i, (a0, a1, lr_run, data_run, p_start, p_end) in enumerate(run_bounds):
+        recs = log["batches"][a0:a1]
+        if len(recs) < 2 or any(rec.get("vk") is None for rec in recs) or len(recs) > 40:
+            ctx.count("fit calls not recomputed as a whole (fewer than 2 batches / chain unobservable)")
+            continue
+        epochs = []
+        for e in range(start, last + 1):
+            ebs = []
+            for rec in recs:
+                if rec["epoch"] != e:
+                    continue
+                if kind == "pos":
+                    ebs.append({"rows": bits(rec["pos"]), "vk": bits(rec["vk"])})
+                else:
+                    ebs.append({"samples": [{"bits": [int(x) for x in row], "basis": b} for row, b in zip(rec["pos"], rec["bases"])], "vk": bits(rec["vk"])})
+            epochs.append(ebs)
+        if sum(len(e_) for e_ in epochs) != len(recs):
+            continue  # epoch bookkeeping of the implementation is off: reported by the schedule oracles above
+        req = dict(kind=kind, n=n, h=h, lr0=f2b(lr_run), epochs=epochs, am=qc.pbits(p_start[0]))
+        if sched:
+            req["sched"] = {"gamma": f2b(sched["gamma"]), "step_size": sched["step_size"]}
+        if kind != "pos":
+            req.update(ph=qc.pbits(p_start[1]), dict=dict_enc)
+            if kind == "dm":
+                req.update(a=a, eps=f2b(EPS))
+        m = ctx.driver.call("c06.run", **req)
+        rcase = {**case, "fit_call": r_i}
+        ctx.point("number of recorded updates of the fit call", "property", len(recs), len(m["trace"]), rcase, exact=True, sig=f"{kind}/run-length", theorem=TH["hist"])
+        ctx.point("learning rate in force at every batch (model: lrAfter / tagEpochs)", "property", [rec["lr"] for rec in recs], unbits(m["lrs"]), rcase,
+                  rtol=1e-12, atol=1e-18, sig=f"{kind}/run-lr", theorem=TH["lr"])
+        for t, (rec, tr) in enumerate(zip(recs, m["trace"])):
+            for ni in range(len(nets)):
+                ctx.point(f"fit call from its initial parameters: params after batch {t} [net{ni}]", "property", flat(rec["after"][ni], order), unbits(tr[ni]),
+                          {**rcase, "batch_index": a0 + t}, scale=1.0, rtol=2e-7, atol=1e-9, sig=f"{kind}/run-trace", theorem=TH["hist"])
+        ctx.count("fit calls recomputed from their initial parameters")
 
 
 def gen_cases(ctx, thorough):
     rng = ctx.rng
     out = []
     kinds = ["pos", "cplx", "dm"]
-    reps = 24 if thorough else 2
+    reps = 40 if thorough else 3
+
+    def base_case(kind, sched=None, opt_form="class"):
+        n = rng.choice([2, 3]) if kind != "dm" else 2
+        h = rng.choice([1, 2, 3])
+        a = rng.choice([1, 2])
+        N = rng.randint(3, 9)
+        pos_bs = rng.choice([2, 3, 4, N, N + 2])
+        neg_bs = rng.choice([None, pos_bs, rng.randint(1, 5)])
+        data = [[rng.randint(0, 1) for _ in range(n)] for _ in range(N)]
+        pool = ["".join(rng.choice("XYZ") for _ in range(n)) for _ in range(2)] + ["Z" * n]
+        bases = [rng.choice(pool) for _ in range(N)]
+        bases[0] = "Z" * n  # at least one reference-basis row (needed for the negative phase)
+        scale = rng.choice([0.3, 0.8])
+        if kind == "dm":
+            am = qc.rand_prbm_params(rng, n, h, a, scale); ph = qc.rand_prbm_params(rng, n, h, a, scale, d_zero=True)
+        else:
+            am = qc.rand_rbm_params(rng, n, h, scale); ph = qc.rand_rbm_params(rng, n, h, scale) if kind == "cplx" else None
+        second = rng.random() < 0.5
+        rows2 = [[rng.randint(0, 1) for _ in range(n)] for _ in range(N)]
+        if kind != "pos":  # keep the reference-basis row pattern meaningful for the second data set too
+            rows2[0] = data[0]
+        return {"kind": kind, "n": n, "h": h, "a": a, "am": am, "ph": ph, "data": data, "bases": bases, "pos_bs": pos_bs, "neg_bs": neg_bs,
+                "k": rng.choice([0, 1, 2, 3]), "lr": rng.choice([0.5, 0.05, 1e-3]), "epochs": rng.choice([1, 2, 3]), "seed": rng.randrange(1 << 30),
+                "start": rng.choice([1, 1, 2, 4]), "second_lr": (rng.choice([0.25, 0.01]) if second else None),
+                "second_data": (rows2 if second else None), "sched": sched, "opt_form": opt_form,
+                "dmode": rng.choice(["faithful", "faithful", "coin"]), "dseed": rng.randrange(1 << 30)}
+
     for kind in kinds:
         for _ in range(reps):
-            n = rng.choice([2, 3]) if kind != "dm" else 2
-            h = rng.choice([1, 2, 3])
-            a = rng.choice([1, 2])
-            N = rng.randint(3, 9)
-            pos_bs = rng.choice([2, 3, 4, N, N + 2])
-            neg_bs = rng.choice([None, pos_bs, rng.randint(1, 5)])
-            data = [[rng.randint(0, 1) for _ in range(n)] for _ in range(N)]
-            pool = ["".join(rng.choice("XYZ") for _ in range(n)) for _ in range(2)] + ["Z" * n]
-            bases = [rng.choice(pool) for _ in range(N)]
-            bases[0] = "Z" * n  # at least one reference-basis row (needed for the negative phase)
-            scale = rng.choice([0.3, 0.8])
-            if kind == "dm":
-                am = qc.rand_prbm_params(rng, n, h, a, scale); ph = qc.rand_prbm_params(rng, n, h, a, scale, d_zero=True)
-            else:
-                am = qc.rand_rbm_params(rng, n, h, scale); ph = qc.rand_rbm_params(rng, n, h, scale) if kind == "cplx" else None
-            second = rng.random() < 0.5
-            rows2 = [[rng.randint(0, 1) for _ in range(n)] for _ in range(N)]
-            if kind != "pos":  # keep the reference-basis row pattern meaningful for the second data set too
-                rows2[0] = data[0]
-            out.append({"kind": kind, "n": n, "h": h, "a": a, "am": am, "ph": ph, "data": data, "bases": bases, "pos_bs": pos_bs, "neg_bs": neg_bs,
-                        "k": rng.choice([0, 1, 2, 3]), "lr": rng.choice([0.5, 0.05, 1e-3]), "epochs": rng.choice([1, 2, 3]), "seed": rng.randrange(1 << 30),
-                        "start": rng.choice([1, 1, 2, 4]), "second_lr": (rng.choice([0.25, 0.01]) if second else None),
-                        "second_data": (rows2 if second else None)})
+            sched = None
+            opt_form = "class"
+            if thorough:
+                if rng.random() < 0.3:
+                    sched = {"step_size": rng.choice([1, 1, 2]), "gamma": rng.choice([0.5, 0.1, 0.9])}
+                opt_form = rng.choice(["class", "class", "default", "args"])
+            out.append(base_case(kind, sched, opt_form))
+    # a real torch scheduler (StepLR through scheduler_args) over >= 3 epochs, the library's default optimizer, optimizer_args
+    forms = [("pos", "default"), ("cplx", "args"), ("dm", "default")]
+    for kind, opt_form in forms * (3 if thorough else 1):
+        c = base_case(kind, {"step_size": rng.choice([1, 1, 2]), "gamma": rng.choice([0.5, 0.25])}, opt_form)
+        c.update(epochs=rng.choice([3, 4]), k=rng.choice([1, 2]), lr=rng.choice([0.5, 0.05]), regime="steplr")
+        c["pos_bs"] = min(c["pos_bs"], max(2, len(c["data"]) // 2))  # at least two batches per epoch
+        out.append(c)
+    # chain-start regime: positive and negative batch have the SAME shape but (with bases) different rows; distinct data rows; k >= 1 and k = 0
+    for kind in kinds:
+        for rep_i in range(6 if thorough else 2):
+            c = base_case(kind)
+            N = len(c["data"])
+            c.update(k=(0 if rep_i % 2 else rng.choice([1, 2])), neg_bs=None, pos_bs=rng.choice([2, 3]), epochs=2, second_lr=None, second_data=None, regime="chain-start")
+            n = c["n"]
+            # distinct rows so that a chain started from the positive batch presents other conditionals than one started from the negative batch
+            c["data"] = [[(i >> j) & 1 for j in range(n)] for i in range(N)]
+            out.append(c)
     # small-amplitude regime: strongly negative visible biases, all-ones outcomes measured with exactly one rotated site
     for kind in ("cplx", "dm"):
         for _ in range(4 if thorough else 1):
@@ -274,5 +617,5 @@ def search(ctx):
 
 
 def replay(ctx, case):
-    case = dict(case); case.pop("batch_index", None)
+    case = dict(case); case.pop("batch_index", None); case.pop("fit_call", None)
     one_case(ctx, case)
